@@ -228,6 +228,7 @@ typedef struct {
     const uint64_t *ref; /* NMENU x NIN */
     uint64_t seed;
     size_t iters;
+    long only; /* >= 0: every call is this MENU entry */
     size_t bad;
     size_t firstbad;
     Priv p;
@@ -252,7 +253,7 @@ static void *worker(void *a_) {
     uint64_t st = a->seed;
     for (size_t i = 0; i < a->iters; i++) {
         uint64_t r = sm64(&st);
-        size_t c = (size_t)(r % NMENU), k = (size_t)((r >> 20) % NIN);
+        size_t c = a->only >= 0 ? (size_t)a->only : (size_t)(r % NMENU), k = (size_t)((r >> 20) % NIN);
         uint64_t h = MENU[c].fn(a->in[k], a->n, &a->p);
         if (h != a->ref[c * NIN + k]) {
             if (!a->bad) {
@@ -268,7 +269,15 @@ static void *worker(void *a_) {
 static void op_mt(const VhLine *l) {
     size_t T = (size_t)p_u64(kw(l, "threads")), I = (size_t)p_u64(kw(l, "iters")), n = (size_t)p_u64(kw(l, "n"));
     uint64_t seed = p_u64(kw(l, "seed"));
-    if (T < 1 || T > 64 || n < 1 || n > 100000) {
+    long only = -1;
+    if (kw(l, "only")) {
+        for (size_t c = 0; c < NMENU; c++) {
+            if (strcmp(MENU[c].name, kw(l, "only")) == 0) {
+                only = (long)c;
+            }
+        }
+    }
+    if (T < 1 || T > 64 || n < 1 || n > 400000 || (kw(l, "only") && only < 0)) {
         out("bad-op");
         return;
     }
@@ -294,14 +303,14 @@ static void op_mt(const VhLine *l) {
     priv_init(&p0, n);
     for (size_t c = 0; c < NMENU; c++) {
         for (size_t k = 0; k < NIN; k++) {
-            ref[c * NIN + k] = MENU[c].fn(in[k], n, &p0);
+            ref[c * NIN + k] = (only < 0 || (long)c == only) ? MENU[c].fn(in[k], n, &p0) : 0;
         }
     }
     /* the same call made twice alone gives the same digest */
     size_t unstable = 0;
     for (size_t c = 0; c < NMENU; c++) {
         for (size_t k = 0; k < NIN; k++) {
-            if (MENU[c].fn(in[k], n, &p0) != ref[c * NIN + k]) {
+            if ((only < 0 || (long)c == only) && MENU[c].fn(in[k], n, &p0) != ref[c * NIN + k]) {
                 unstable++;
             }
         }
@@ -315,6 +324,7 @@ static void op_mt(const VhLine *l) {
         args[t].ref = ref;
         args[t].seed = seed * 1315423911u + t * 2654435761u;
         args[t].iters = I;
+        args[t].only = only;
         args[t].bad = 0;
         args[t].firstbad = 0;
         priv_init(&args[t].p, n);
